@@ -1,13 +1,18 @@
 import TextxVerif.Wire
 import TextxVerif.Load.History
+import TextxVerif.Load.SearchPath
 /-! Driver for the load-history machine (C16).
 
 {"op":"case",
  "nodes":[{"k","kids","tok","ws","skipws","root","rule","sup","sep","eol"}…],          pool wide node table
  "mms":[{"top","comments","memo","skipws","ws","debug","user":[rule…]} | null …],        slot k
  "inps":[{"input":"…","toks":[[len|-1…]…],"fuel":n}…],
- "hists":[[{"new":k} | {"load":k,"files":[inp index…],"buildFail":b,"fin":"ok|resolve|init|objproc|modelproc","j":n}…]…]}
-→ {"runs":[{"outs":[null | {"parses":[…],"stores":[…],"phase":"…","i":n,"initSeq":[…]}…],
+ "fsys":[[dir,"name",["importURI"…]]…],                                                   model files (optional)
+ "hists":[[{"new":k} | {"load":k,"files":[inp index…],"buildFail":b,"fin":"ok|resolve|init|objproc|modelproc","j":n}
+                     | {"load":k,"main":file index,"sp":[dir…]|null,"inpOf":[inp index|null … per file],"buildFail",…}…]…]}
+   a load given by `main` is a `model_from_file`: the files it parses are computed by `History.loadOrder`
+   (imports looked up next to the importing file, then along the provider's search path `sp`)
+→ {"runs":[{"outs":[null | {"parses":[…],"stores":[…],"phase":"…","i":n,"initSeq":[…],"order":[file index…],"found":b}…],
             "hid":[{"cache":n,"bp":[[6 lengths]|null…],"instr":[…],"attrs":[…],"gp":[[debug,memo]…],"owner":k|null}…],
             "walkOK":b}…]}
 The machine run is `realWalk`: memo caches are cleared as Arpeggio does it, by walking the parser model
@@ -111,9 +116,31 @@ def parseInp (j : Json) : Option Inp := do
   let fuel ← getNat? j "fuel"
   pure { input := input.toList.toArray, toks := toks, fuel := fuel }
 
+/-- where the texts of a load come from: given, or `model_from_file(main)` through a provider -/
+inductive Src
+  | given (files : List Nat)
+  | file (main : Nat) (sp : SPath) (inpOf : Array (Option Nat))
+
 inductive ROp
   | new (k : Nat)
-  | load (k : Nat) (files : List Nat) (buildFail : Bool) (fin : Fin)
+  | load (k : Nat) (src : Src) (buildFail : Bool) (fin : Fin)
+
+def parseFileEnt (j : Json) : Option FileEnt := do
+  let a ← asArr? j
+  let d ← asNat? (← a[0]?)
+  let n ← asStr? (← a[1]?)
+  let imps ← (← asArr? (← a[2]?)).toList.mapM asStr?
+  pure { dir := d, name := n, imps := imps }
+
+def parseSrc (j : Json) : Option Src :=
+  match getNat? j "main" with
+  | some m => do
+    let sp ← optField j "sp" (fun v => do (← asArr? v).toList.mapM asNat?)
+    let io ← (← getArr? j "inpOf").mapM fun e => match e with
+      | Json.null => some none
+      | v => (asNat? v).map some
+    pure (.file m sp io)
+  | none => do pure (.given (← getNatList? j "files"))
 
 def parseFin (s : String) (j : Nat) : Option Fin :=
   match s with
@@ -125,10 +152,10 @@ def parseOp (j : Json) : Option ROp :=
   | some k => some (.new k)
   | none => do
     let k ← getNat? j "load"
-    let files ← getNatList? j "files"
+    let src ← parseSrc j
     let bf ← getBool? j "buildFail"
     let fin ← parseFin (← getStr? j "fin") ((getNat? j "j").getD 0)
-    pure (.load k files bf fin)
+    pure (.load k src bf fin)
 
 def hidJson (nslots : Nat) (H : Hidden) : Json :=
   let slots := List.range nslots
@@ -147,7 +174,7 @@ def initSeq (counts : List Nat) (allocs : List Nat) : List Nat :=
   (counts.zip allocs).flatMap fun (c, a) => List.replicate a c
 
 /-- run one history from the fresh state -/
-def runHistory (nodes : Array Node) (mmxs : List (Option MMx)) (inps : Array Inp) (ops : List ROp) : Option Json := do
+def runHistory (nodes : Array Node) (mmxs : List (Option MMx)) (inps : Array Inp) (fsys : FSys) (ops : List ROp) : Option Json := do
   -- slots without configuration get an unusable dummy that is never created
   let W : World := { nodes := nodes, mms := mmxs.map fun x => match x with
     | some m => m.mm
@@ -166,7 +193,14 @@ def runHistory (nodes : Array Node) (mmxs : List (Option MMx)) (inps : Array Inp
       | some (some _) => H := create W k H
       | _ => none   -- creating a slot that has no configuration: undecodable request
       outs := outs.push Json.null
-    | .load k fileIdx bf fin =>
+    | .load k src bf fin =>
+      -- `model_from_file`: the provider decides which files are parsed (a file without token table: undecodable)
+      let (fileIdx, extra) ← match src with
+        | .given fi => some (fi, ([] : List (String × Json)))
+        | .file m sp io =>
+          let (ord, found, _) := loadOrder false fsys m sp
+          let pick : Nat → Option Nat := fun f => (io[f]?).join
+          (ord.mapM pick).map fun fi => (fi, [("order", toJson ord), ("found", toJson found)])
       let files ← fileIdx.mapM fun i => inps[i]?
       let sem : Sem :=
         { file := fun k r => { ok := !bf, dump := 0, allocs := userAllocs nodes (userOf k) r.tree,
@@ -180,7 +214,7 @@ def runHistory (nodes : Array Node) (mmxs : List (Option MMx)) (inps : Array Inp
       outs := outs.push (Json.mkObj ([
         ("parses", Json.arr (o.parses.map outcomeJson).toArray),
         ("stores", toJson o.stores),
-        ("initSeq", toJson (initSeq o.initCounts allocs))] ++ phaseJson o.phase))
+        ("initSeq", toJson (initSeq o.initCounts allocs))] ++ phaseJson o.phase ++ extra))
     hids := hids.push (hidJson nslots H)
   pure (Json.mkObj [("outs", Json.arr outs), ("hid", Json.arr hids), ("walkOK", toJson W.walkOK)])
 
@@ -193,8 +227,11 @@ def handle (j : Json) : Json :=
       let nodes ← (← getArr? j "nodes").mapM parseNode
       let mmxs ← (← getArr? j "mms").toList.mapM parseMM
       let inps ← (← getArr? j "inps").mapM parseInp
+      let fsys ← match getArr? j "fsys" with
+        | some a => a.mapM parseFileEnt
+        | none => some #[]
       let hists ← (← getArr? j "hists").toList.mapM fun h => do (← asArr? h).toList.mapM parseOp
-      let runs ← hists.mapM (runHistory nodes mmxs inps)
+      let runs ← hists.mapM (runHistory nodes mmxs inps fsys)
       pure (Json.mkObj [("runs", Json.arr runs.toArray)])
     r.getD badOp
   | _ => badOp
